@@ -517,6 +517,12 @@ func checkMain(args []string) int {
 		for _, a := range c.Assumed {
 			trusted = append(trusted, "assumed clause in the contract of "+k+": "+a.Src)
 		}
+		for _, u := range c.Unchecked {
+			trusted = append(trusted, "implicit obligation declared out of reach (assumed) in the contract of "+k+": "+u)
+		}
+		for _, u := range c.Tolerates {
+			trusted = append(trusted, "error tolerated by design (no errdrop obligation) in the contract of "+k+": "+u)
+		}
 	}
 	for pkg, axs := range v.db.Axioms {
 		for _, a := range axs {
